@@ -111,10 +111,10 @@ Theorem C24_distinct : forall (q : query), q_window q = no_window ->
   NoDup (q_list eqb (set_distinct true q)) /\ forall x, In x (q_list eqb (set_distinct true q)) <-> In x (q_list eqb q).
 Proof. exact (distinct_list eqb eqb_spec). Qed.
 
-(* bulk delete removes exactly the selected rows -- for a query without a window *)
-Theorem C24_bulk_delete_except_known : forall (q : query), q_window q = no_window ->
-  (eff_distinct q = false \/ NoDup (q_rows q)) ->
-  Permutation (bulk_deleted q) (q_list eqb q) /\ plain_deleted eqb q = q_list eqb q.
+(* bulk delete removes exactly the selected rows (rows are distinct objects, or the query runs without DISTINCT), whether or not
+   the query iterates over a limited subquery *)
+Theorem C24_bulk_delete : forall (q : query), (eff_distinct q = false \/ NoDup (q_rows q)) ->
+  Permutation (bulk_deleted eqb q) (q_list eqb q) /\ plain_deleted eqb q = q_list eqb q.
 Proof. exact (bulk_delete_both eqb eqb_spec). Qed.
 
 End OnQueries.
@@ -130,7 +130,7 @@ Print Assumptions C24_order_permutes_except_known.
 Print Assumptions C24_order_permutes_nodup.
 Print Assumptions C24_order_sorted.
 Print Assumptions C24_distinct.
-Print Assumptions C24_bulk_delete_except_known.
+Print Assumptions C24_bulk_delete.
 
 (* count/sum/min/max/avg of a single integer column = the Python operation on R whenever the DISTINCT the aggregate function
    uses is the DISTINCT the query is executed with (sum of nothing is 0; min/max/avg of nothing are None) *)
@@ -156,10 +156,10 @@ Theorem C24_group_concat_except_known : forall arg (q : query (A:=Z)), q_window 
 Proof. exact group_concat_list. Qed.
 Print Assumptions C24_group_concat_except_known.
 
-Theorem C24_count_pair_except_known : forall (q : query (A:=Z * Z)), q_window q = no_window -> eff_distinct q = false ->
+Theorem C24_count_pair : forall (q : query (A:=Z * Z)), q_window q = no_window ->
   q_count_pair None q = Ok (zlen (q_list zz_eqb q)).
 Proof. exact count_pair_list. Qed.
-Print Assumptions C24_count_pair_except_known.
+Print Assumptions C24_count_pair.
 
 (* non-vacuity: a concrete chain.  rows 5 3 5 1 4, WHERE x > 1, ORDER BY x, iterated through .limit(3, 1), then [1:] *)
 Example C24_nonvacuous :
@@ -172,3 +172,10 @@ Theorem C24_count_entities : forall (A : Type) (eqb : A -> A -> bool), (forall x
   forall q : query (A:=A), q_window q = no_window -> NoDup (q_rows q) -> q_count_rows q = Ok (zlen (q_list eqb q)).
 Proof. exact @count_rows_list. Qed.
 Print Assumptions C24_count_entities.
+
+(* the two repaired cases, on the inputs that used to fail: a bulk delete over q.limit(2) removes the two selected rows; three
+   distinct pairs are counted as three *)
+Example C24_repaired_cases :
+  bulk_deleted Z.eqb (nest (zquery [1; 2; 3] (fun _ => true) false false None no_window) (Some 2, None)) = [1; 2] /\
+  q_count_pair None (zzquery [(1, 1); (1, 2); (2, 1)] (fun _ => true) false true None no_window) = Ok 3.
+Proof. split; vm_compute; reflexivity. Qed.
